@@ -123,9 +123,13 @@ func (r *c13Rec) awaitEnd() {
 func (r *c13Rec) census() {
 	synctest.Wait()
 	ka := 0
-	if runtime.NumGoroutine() != r.g0 {
+	if d := runtime.NumGoroutine() - r.g0; d != 0 {
 		// something is still there: look at the goroutine dump (only goroutines of this bubble count)
-		_, _, ka = c13Bubble()
+		if c13Dumps < c13MaxDumps {
+			_, _, ka = c13Bubble()
+		} else if d > 0 {
+			ka = d // leaks are established by then; stop paying for dumps
+		}
 	}
 	r.mu.Lock()
 	r.obs.KAAlive, r.obs.Settle = ka, r.us()
@@ -457,6 +461,12 @@ func c13RunSession(r *c13Rec, thr int, level string) error {
 
 // ---------------------------------------------------------------------------
 
+// Goroutine dumps are only taken when the goroutine count is off; they are capped because
+// with a leaking implementation every dump also lists the goroutines of earlier scenarios.
+const c13MaxDumps = 300
+
+var c13Dumps int
+
 var (
 	c13HdrRE    = regexp.MustCompile(`(?m)^goroutine \d+ \[[^\]]*synctest bubble (\d+)[^\]]*\]:$`)
 	c13CreateRE = regexp.MustCompile(`created by (\S+)`)
@@ -466,6 +476,7 @@ var (
 // the caller and the bubble's main goroutine: how many there are, where they were created,
 // and how many of them are keep-alive loops (startKeepalive on their stack).
 func c13Bubble() (others int, where string, keepalive int) {
+	c13Dumps++
 	buf := make([]byte, 1<<18)
 	for {
 		n := runtime.Stack(buf, true)
@@ -538,9 +549,13 @@ func c13Scenario(t *testing.T, c c13Case, level string, seed uint64) (o *c13Obs)
 		case <-r.abort:
 		}
 		synctest.Wait()
-		if runtime.NumGoroutine() != g0 {
+		if d := runtime.NumGoroutine() - g0; d != 0 {
 			// confirm on the goroutine dump: only goroutines of this bubble count
-			o.Left, o.LeftAt, _ = c13Bubble()
+			if c13Dumps < c13MaxDumps {
+				o.Left, o.LeftAt, _ = c13Bubble()
+			} else if d > 0 {
+				o.Left, o.LeftAt = d, "(not inspected)"
+			}
 		}
 	})
 	return o
